@@ -57,11 +57,129 @@ def write_doc(text, tag="doc"):
     return path
 
 
-def build(spec):
+_DOC_CACHE = {}
+
+
+def parse_doc(text):
+    """Parsed copy of a (well-formed, generated) document for deriving
+    siblings from it - never used as an oracle's view of the file."""
+    import copy
+    import yaml
+    d = _DOC_CACHE.get(text)
+    if d is None:
+        loader = getattr(yaml, "CSafeLoader", yaml.SafeLoader)
+        d = yaml.load(text, Loader=loader)
+        if len(_DOC_CACHE) > 8:
+            _DOC_CACHE.clear()
+        _DOC_CACHE[text] = d
+    return copy.deepcopy(d)
+
+
+def yaml_name(text):
+    h = sum(map(ord, text[:200]))
+    return "doc" if h % 5 else SHIPPED[h % len(SHIPPED)]
+
+
+def variant_spec(spec, rng, name=None, keep_order=True):
+    """A sibling of `spec`: the same scenario name and the same vector layout
+    (sizes, bounds, names - in the same order when keep_order), other
+    numbers: costs, probabilities, host configurations, firewall, step
+    limit.  None if there is no obvious one."""
+    import yaml
+    from . import docgen
+    kind = spec["kind"]
+    if kind == "genbench":
+        return {"kind": "genbench", "name": spec["name"],
+                "seed": (spec.get("seed") or 0) + 1 + rng.randint(0, 5)}
+    if kind == "generated":
+        p = dict(spec["params"])
+        p["seed"] = (int(p.get("seed") or 0) + 1 + rng.randint(0, 5)) \
+            % (2 ** 31)
+        for _ in range(rng.randint(1, 3)):
+            m = rng.choice(["scan", "probs_one", "probs", "costs", "none"])
+            if m == "scan":
+                for c in ("service_scan_cost", "os_scan_cost",
+                          "subnet_scan_cost", "process_scan_cost"):
+                    p[c] = rng.choice([2, 3, 4])
+            elif m == "probs_one":
+                p["exploit_probs"] = 1.0
+                p["privesc_probs"] = 1.0
+            elif m == "probs":
+                p["exploit_probs"] = rng.choice([0.3, 0.6, "mixed"])
+            elif m == "costs":
+                p["exploit_cost"] = rng.choice([2, 3])
+                p["privesc_cost"] = rng.choice([2, 3])
+        return {"kind": "generated", "params": p}
+    if kind == "benchmark":
+        text, nm = shipped_text(spec["name"]), spec["name"]
+    elif kind == "yaml":
+        text, nm = spec["text"], name or spec.get("name") or \
+            yaml_name(spec["text"])
+    else:
+        return None
+    try:
+        doc = parse_doc(text)
+        hosts = doc["host_configurations"]
+        muts = ["scan", "probs_one", "probs", "costs", "swap_hosts",
+                "access", "fw_open", "fw_some", "limit"]
+        if not keep_order:
+            muts += ["reorder", "reorder", "reorder"]
+        for m in rng.sample(muts, rng.randint(1, 3)):
+            if m == "scan":
+                for c in ("service_scan_cost", "os_scan_cost",
+                          "subnet_scan_cost", "process_scan_cost"):
+                    doc[c] = doc[c] + rng.choice([1, 2, 3])
+            elif m in ("probs_one", "probs"):
+                for sec in ("exploits", "privilege_escalation"):
+                    for e in (doc.get(sec) or {}).values():
+                        e["prob"] = 1.0 if m == "probs_one" else \
+                            round(rng.uniform(0.1, 0.9), 2)
+            elif m == "costs":
+                for sec in ("exploits", "privilege_escalation"):
+                    for e in (doc.get(sec) or {}).values():
+                        e["cost"] = e["cost"] + rng.choice([1, 2])
+            elif m == "swap_hosts":
+                keys = list(hosts)
+                if len(keys) >= 2:
+                    cfgs = [(hosts[k]["os"], hosts[k]["services"],
+                             hosts[k]["processes"]) for k in keys]
+                    cfgs = cfgs[1:] + cfgs[:1]
+                    for k, (o, sv, pr) in zip(keys, cfgs):
+                        hosts[k]["os"], hosts[k]["services"], \
+                            hosts[k]["processes"] = o, sv, pr
+            elif m == "access":
+                for e in doc["exploits"].values():
+                    e["access"] = "root" if e["access"] in ("user", 1) \
+                        else "user"
+            elif m == "fw_open":
+                for k in doc["firewall"]:
+                    doc["firewall"][k] = list(doc["services"])
+            elif m == "fw_some":
+                for k in doc["firewall"]:
+                    if rng.random() < 0.4:
+                        doc["firewall"][k] = []
+            elif m == "limit":
+                doc["step_limit"] = rng.choice([5, 50, 1000])
+            elif m == "reorder":
+                for sec in ("os", "services", "processes"):
+                    names = list(doc[sec])
+                    if len(names) >= 2 and rng.random() < 0.7:
+                        k = rng.randint(1, len(names) - 1)
+                        doc[sec] = names[k:] + names[:k]
+        return {"kind": "yaml", "text": docgen.emit(doc), "name": nm}
+    except Exception:
+        return None
+
+
+def build(spec, want_cfg=True):
     """spec -> (scenario, cfg).  Raises whatever the SUT raises."""
     import nasim
     import numpy as np
     kind = spec["kind"]
+    if kind == "yaml" and not want_cfg:
+        name = spec.get("name") or yaml_name(spec["text"])
+        path = write_doc(spec["text"], tag=name)
+        return nasim.load_scenario(path, name=name), None
     if kind == "benchmark":
         text = shipped_text(spec["name"])
         cfg = reader.from_yaml_text(text, name=spec["name"])
@@ -73,8 +191,8 @@ def build(spec):
         # the name is free: a user's own file may be called like a benchmark;
         # a ScenarioLoader instance may be reused for several files
         h = sum(map(ord, spec["text"][:200]))
-        name = "doc" if h % 5 else SHIPPED[h % len(SHIPPED)]
-        cfg = reader.from_yaml_text(spec["text"], name=name)
+        name = spec.get("name") or yaml_name(spec["text"])
+        cfg = reader.from_yaml_text(spec["text"], name=name, fast=True)
         path = write_doc(spec["text"], tag=name)
         if h % 3 == 0:
             global _LOADER
@@ -254,6 +372,27 @@ def fix_params(p, rng):
 
 
 GEN_LINE_BUDGET = 5_000_000
+
+
+def reject_params(p, rng):
+    """Make the parameter set one the generator rejects (at different depths
+    of the generation); returns how."""
+    how = rng.choice(["exploit_probs_len", "privesc_probs_range",
+                      "bounds_small", "privesc_probs_len",
+                      "exploit_probs_range"])
+    if how == "exploit_probs_len":
+        p["exploit_probs"] = [0.5] * ((p.get("num_exploits")
+                                       or p["num_services"]) + 1)
+    elif how == "privesc_probs_len":
+        p["privesc_probs"] = [0.5] * ((p.get("num_privescs")
+                                       or p["num_processes"]) + 1)
+    elif how == "privesc_probs_range":
+        p["privesc_probs"] = 1.5
+    elif how == "exploit_probs_range":
+        p["exploit_probs"] = 0.0
+    else:
+        p["address_space_bounds"] = [1, 1]
+    return how
 
 
 def guarded_generate(fn, *a, **k):
